@@ -16,6 +16,12 @@
 //! `alias` and the colliding pair (that is the known-finding signature);
 //! every other wrong read is reported with kind `violation`.
 //!
+//! Events `commit` / `drop` / `reopen` are followed by a comparison of the
+//! complete content unless they carry `"q": true` (quiet); `sweep` is that
+//! comparison as an event of its own.  The "first touch after open" family
+//! of `KvStoreGen.tla` (FTSpec) uses quiet reopens so that the operation
+//! after the open is the first one that resolves its column family.
+//!
 //! `--mode atomic`: a writer commits batches {put A=i, many fillers, put B=i}
 //! while a reader repeatedly reads A and then B; `B < A` means the reader saw
 //! a part of a batch.
@@ -942,6 +948,9 @@ impl<D: KvDatabase, F: Fam> Runner<'_, D, F> {
         let a = ev["a"].as_str().unwrap();
         phase(format!("step {step}: {a}"));
         let h = ev["h"].as_u64().map_or(0, |x| x as usize - 1);
+        // `q` (quiet): the harness reads nothing after this event, so the next
+        // event is the first one that touches its column (family) in the session
+        let quiet = ev["q"].as_bool().unwrap_or(false);
         match a {
             "batch" => {
                 self.batches[h] = Some((self.db().write_batch(), vec![]));
@@ -986,11 +995,15 @@ impl<D: KvDatabase, F: Fam> Runner<'_, D, F> {
                         ShadowOp::None => {}
                     }
                 }
-                self.sweep(step, "after commit", &ev["state"]);
+                if !quiet {
+                    self.sweep(step, "after commit", &ev["state"]);
+                }
             }
             "drop" => {
                 self.batches[h] = None;
-                self.sweep(step, "after drop without commit", &ev["state"]);
+                if !quiet {
+                    self.sweep(step, "after drop without commit", &ev["state"]);
+                }
             }
             "get" => {
                 let (c, k, v) = (
@@ -1024,7 +1037,13 @@ impl<D: KvDatabase, F: Fam> Runner<'_, D, F> {
             "reopen" => {
                 self.close();
                 self.db = Some((self.open)());
-                self.sweep(step, "after close and reopen", &ev["state"]);
+                if !quiet {
+                    self.sweep(step, "after close and reopen", &ev["state"]);
+                }
+            }
+            // read everything: every cell and every set against the model
+            "sweep" => {
+                self.sweep(step, "read everything", &ev["state"]);
             }
             other => panic!("harness: unknown event {other}"),
         }
